@@ -743,16 +743,11 @@ def mc_iter(ctx):
         ctx.cov["mc_iter"]["negative_control"] = "without the leaf contract TLC refutes " + neg.violated
 
 
-def apalache_iter(ctx):
-    """Unbounded complement of MC_Iter: Apalache discharges an inductive invariant of the Matches iterator for EVERY text length
-    (integers only): items ordered / non-overlapping / strictly increasing, plus the progress action invariant (termination)."""
-    d = os.path.join(common.WORK, "apalache")
+def apalache_obligations(ctx, key, module, obligations, note):
+    """Run Apalache obligations (name, args, wanted exit); a refuted obligation that should hold is a violation of the design-level instance."""
+    d = os.path.join(common.WORK, "apalache-" + key)
     os.makedirs(d, exist_ok=True)
     spec = os.path.join(common.SPEC, "apalache")
-    obligations = [("base", ["--init=Init", "--inv=IndInv", "--length=0", "ApaIter.tla"], "OK"),
-                   ("step", ["--init=IndInit", "--inv=IndInv", "--length=1", "ApaIter.tla"], "OK"),
-                   ("progress", ["--init=IndInit", "--inv=Progress", "--length=1", "ApaIter.tla"], "OK"),
-                   ("negative_control_without_leaf_contract", ["--init=IndInit", "--inv=IndInv", "--length=1", "ApaIterNeg.tla"], "ERROR (12)")]
     done = {}
     for name, args, want in obligations:
         p = common.sh(["apalache-mc", "check", "--cinit=ConstInit", "--out-dir=" + d, "--write-intermediate=false"] + args, cwd=spec, timeout=900)
@@ -760,13 +755,46 @@ def apalache_iter(ctx):
         got = m[-1].split("EXITCODE:")[1].strip() if m else "none"
         if got != want:
             if want == "OK" and got.startswith("ERROR (12)"):
-                ctx.violation("Apalache refutes the inductive invariant of the iterator model (%s)" % name, dict(kind="mc", instance="ApaIter." + name, tlc_tail=p.stdout[-3000:]))
+                ctx.violation("Apalache refutes the inductive invariant of the model %s (%s)" % (module, name), dict(kind="mc", instance=module + "." + name, tlc_tail=p.stdout[-3000:]))
             else:
-                raise ToolError("apalache %s: expected %s, got %s\n%s" % (name, want, got, p.stdout[-1500:]))
+                raise ToolError("apalache %s %s: expected %s, got %s\n%s" % (module, name, want, got, p.stdout[-1500:]))
         done[name] = got
-    ctx.cov["apalache_iter"] = dict(obligations=done, note="inductive invariant IndInv (base + step) and action invariant Progress hold for every N; integers only")
+    ctx.cov["apalache_" + key] = dict(obligations=done, note=note)
     import shutil
     shutil.rmtree(d, ignore_errors=True)
+
+
+def apalache_iter(ctx):
+    """Unbounded complement of MC_Iter: Apalache discharges an inductive invariant of the Matches iterator for EVERY text length
+    (integers only): items ordered / non-overlapping / strictly increasing, plus the progress action invariant (termination)."""
+    apalache_obligations(ctx, "iter", "ApaIter",
+                         [("base", ["--init=Init", "--inv=IndInv", "--length=0", "ApaIter.tla"], "OK"),
+                          ("step", ["--init=IndInit", "--inv=IndInv", "--length=1", "ApaIter.tla"], "OK"),
+                          ("progress", ["--init=IndInit", "--inv=Progress", "--length=1", "ApaIter.tla"], "OK"),
+                          ("negative_control_without_leaf_contract", ["--init=IndInit", "--inv=IndInv", "--length=1", "ApaIterNeg.tla"], "ERROR (12)")],
+                         "inductive invariant IndInv (base + step) and action invariant Progress hold for every N; integers only")
+
+
+def apalache_split(ctx):
+    """Unbounded complement of MC_Iter for C10: Split / SplitN over the Matches iterator for EVERY text length and EVERY limit: each piece is a
+    valid slice, pieces and matches tile the text, never more than `limit` pieces (inductive invariant, integers only)."""
+    apalache_obligations(ctx, "split", "ApaSplit",
+                         [("base", ["--init=Init", "--inv=IndInv", "--length=0", "ApaSplit.tla"], "OK"),
+                          ("step", ["--init=IndInit", "--inv=IndInv", "--length=1", "ApaSplit.tla"], "OK"),
+                          ("tiles", ["--init=IndInit", "--inv=Tiles", "--length=1", "ApaSplit.tla"], "OK"),
+                          ("negative_control_without_leaf_contract", ["--init=IndInit", "--inv=IndInv", "--length=1", "ApaSplitNeg.tla"], "ERROR (12)")],
+                         "inductive invariant of Split/SplitN (valid slices, tiling, limit countdown) holds for every N and every limit; integers only")
+
+
+def apalache_replace(ctx):
+    """Unbounded complement for C11: try_replacen over the iterator for EVERY text length and EVERY limit: copied stretches are valid slices,
+    copied stretches and replaced matches tile the text, at most K replacements (inductive invariant, integers only)."""
+    apalache_obligations(ctx, "replace", "ApaReplace",
+                         [("base", ["--init=Init", "--inv=IndInv", "--length=0", "ApaReplace.tla"], "OK"),
+                          ("step", ["--init=IndInit", "--inv=IndInv", "--length=1", "ApaReplace.tla"], "OK"),
+                          ("tiles", ["--init=IndInit", "--inv=Tiles", "--length=1", "ApaReplace.tla"], "OK"),
+                          ("negative_control_without_leaf_contract", ["--init=IndInit", "--inv=IndInv", "--length=1", "ApaReplaceNeg.tla"], "ERROR (12)")],
+                         "inductive invariant of try_replacen (valid slices, tiling, at most K replacements) holds for every N and every K; integers only")
 
 
 def iter_spaces(ctx, part):
@@ -1059,6 +1087,7 @@ def c10(ctx):
                 "sequence; expected = RefSplit / RefSplitN over the reference find_iter matches; non-trivial = expected rows of texts with a match; "
                 "model: MC_Iter checks the Split/SplitN machines against these laws for every leaf behaviour")
     mc_iter(ctx)
+    apalache_split(ctx)
     for name, recs, tpath in iter_spaces(ctx, "sp"):
         iterp.run_iters(ctx, name, recs, tpath, "sp", excl)
     probe_known(ctx, "sp", kind="iters")
@@ -1074,6 +1103,7 @@ def c11(ctx):
                 "per (pattern, text): result string, Cow variant, Err/panic; expected = RefReplace over the reference matches with Expand.tla for templates; "
                 "borrowed results are counted per (limit, replacer) and must equal the number of texts without a match")
     t2 = texts("sig6", 2)
+    apalache_replace(ctx)
     spaces = iter_spaces(ctx, "rp")
     named = randgen.random_pats(ctx.rng, "named", 300 if ctx.quick else 3000, depth=3)
     for name, recs, _ in spaces + [("named", named, None)]:
